@@ -42,7 +42,7 @@ def engine_m(prop, tier):
     return obs, meta
 
 
-M_PROPS = {"C08", "C15", "C03"}   # extended as the other mirsym checks land
+M_PROPS = {"C08", "C15", "C03", "C12"}   # extended as the other mirsym checks land
 M_ONLY = {"C15"}
 
 
